@@ -553,7 +553,7 @@ func judge(res *hx.Result, comp string, code string, own bool, must bool, d0 hx.
 	case len(code) >= 5 && code[:5] == "panic":
 		report(res, "panic", fmt.Sprintf("%s verifier panicked on modulus %v (%v): %s", comp, d["n"], d["shape"], code), d)
 	case code == "accept" && !own:
-		report(res, "bad-accepted", fmt.Sprintf("%s verifier accepted responses that do not satisfy its round equations, modulus %v (%v)", comp, d["n"], d["shape"]), d)
+		report(res, "bad-accepted", fmt.Sprintf("%s verifier accepted a proof that fails its round equations or plain checks, modulus %v (%v)", comp, d["n"], d["shape"]), d)
 	case code == "reject" && own:
 		report(res, "good-rejected", fmt.Sprintf("%s verifier rejected responses that satisfy all its round equations, modulus %v (%v)", comp, d["n"], d["shape"]), d)
 	case code == "accept" && must:
